@@ -184,9 +184,10 @@ func ruleCheckElectionTable(c *Ctx) {
 	info := fi.Pkg.TypesInfo
 	opID := paramObjs(info, fi.Decl)[0]
 	n, good := 0, true
-	for _, cl := range litsOfType(info, fi.Decl.Body, spbPath, "AFTResult") {
+	for _, lr := range litsThroughHelpers(info, fi.Decl.Body, spbPath, "AFTResult") {
 		n++
-		if objOfIdent(info, compositeFields(cl)["Id"]) != opID {
+		idE, mapped := lr.callerExpr(compositeFields(lr.Lit)["Id"])
+		if idE == nil || !mapped || objOfIdent(info, idE) != opID {
 			good = false
 		}
 	}
